@@ -460,7 +460,7 @@ impl Prop for C16 {
     fn plan(&self, tier: Tier) -> Plan {
         match tier {
             Tier::Quick => Plan { runs: 144, time_box_s: None, isolation: Isolation::Threads },
-            Tier::Thorough => Plan { runs: 4000, time_box_s: Some(480), isolation: Isolation::Threads },
+            Tier::Thorough => Plan { runs: 30_000, time_box_s: Some(480), isolation: Isolation::Threads },
         }
     }
     fn generate(&self, rc: &RunCtx) -> Case {
